@@ -126,6 +126,10 @@ Theorem C07_other_ops_bal le t o sc t' x :
   same_ledger t t' /\ forall v, aget (db_users t') v = aget (db_users t) v /\ bal t' v = bal t v.
 Proof. exact (other_ops_bal le t o sc t' x). Qed.
 
+(* memory = disk: the gatekeeper's map and table users hold the same record for every user (TowerInv) *)
+Theorem C07_mem_eq_disk t u : Inv t -> aget (gk_users t) u = aget (db_users t) u.
+Proof. exact (fun HI => inv_sync t HI u). Qed.
+
 (* ---------------- 5. the property on traces ---------------- *)
 (* conservation_ok is the first check of mon_C07, and mon_step reports its failure as code 7 *)
 Theorem C07_mon_C07_conservation c m pre o x post :
@@ -239,6 +243,7 @@ Print Assumptions C07_connect_bal_needs_dispute_not_remined.
 Print Assumptions C07_connect_bal_needs_penalty_not_indexed.
 Print Assumptions C07_connect_bal_needs_memo_ok.
 Print Assumptions C07_other_ops_bal.
+Print Assumptions C07_mem_eq_disk.
 Print Assumptions C07_mon_C07_conservation.
 Print Assumptions C07_mon_step_reports_conservation.
 Print Assumptions C07_mon_step_sound.
